@@ -1311,10 +1311,6 @@ def binop(interp, op, a, b, state, node):
         if not known_int:
             interp.raise_pending(state, E('builtins.TypeError'), node,
                                  'unsupported operand type(s) for shift')
-        if name == 'shl':
-            interp.raise_pending(state, E('builtins.OverflowError'), node,
-                                 'shift count too large') if not (
-                T.interval(b, state.kn)[1] is not None) else None
         return T.bitop(name, a, b)
     if name in ('bitor', 'bitand', 'bitxor'):
         if not known_int:
